@@ -70,10 +70,14 @@ def main(tier=None, replay=None):
     dirs = {"planar": np.array([1.0, 0.6, 0.0, 0.0]), "vertical": np.array([0.0, 0.0, 0.8, -0.7]),
             "mixed": np.array([0.7, -0.4, 0.5, 0.6]), "mixed2": np.array([-0.3, 0.8, -0.6, 0.2])}
     cms = {}
+    if not ck.quick:
+        # upper edge of the mass-ratio range: equal masses at L1, where the odd-degree part of the Hamiltonian (and with it the odd
+        # generator blocks) vanishes identically; degree 6 is the lowest at which the centre coordinates feel the difference
+        cfgs = list(cfgs) + [{"system": "mu=0.5", "point": 1, "degree": 6, "kind": "direction", "what": w} for w in ("mixed", "planar")]
     for c in sorted(cfgs, key=lambda c: json.dumps(c, sort_keys=True)):
         key = (c["system"], c["point"], c["degree"])
         if key not in cms:
-            system = System.from_bodies(*c["system"].split("-"))
+            system = System.from_mu(float(c["system"][3:])) if c["system"].startswith("mu=") else System.from_bodies(*c["system"].split("-"))
             L = system.get_libration_point(c["point"])
             cm = L.get_center_manifold(degree=c["degree"])
             ham = cm.compute("center_manifold_real")
